@@ -144,7 +144,13 @@ def eval_case(chks, case, records):
                     chk_l.fail("inputs-unchanged", "compute_neighborlist:" + ",".join(snap.changed()), "inputs modified", dict(info, frame=f))
                 problems = _check_list(nl, D, d32, cutoff, margin, n)
                 if problems:
-                    clause, what, obs, exp = problems
+                    clause, what, obs, exp = problems[:4]
+                    if len(problems) > 4:  # a missing pair: does the two-atom system alone reproduce it?  (minimal witness)
+                        i_, j_ = problems[4]
+                        sub = t[f].atom_slice([i_, j_])
+                        if len(md.compute_neighborlist(sub, cutoff, periodic=periodic)[0]) == 0:
+                            what += (f"; minimal witness: 2 atoms xyz={sub.xyz[0].tolist()} unitcell_lengths={None if not has_cell else sub.unitcell_lengths[0].tolist()} "
+                                     f"unitcell_angles={None if not has_cell else sub.unitcell_angles[0].tolist()} cutoff={cutoff!r} -> empty neighbour list")
                     unred = bool(use_box and ck == "triclinic" and _unreduced(np.asarray(t.unitcell_vectors[f], dtype=np.float64)))
                     records.append(dict(chk="list", func="compute_neighborlist", clause=clause, mode=mode, pos=pos, cell=ck if use_box else "none", unreduced=unred, dist=dist, cut=cls, n=n,
                                         what=f"{what} [family={family} {dist} {pos} n_atoms={n} cutoff={cutoff:.4f} ({cls}) frame={f} periodic={periodic} margin={margin:.1e}]",
@@ -223,7 +229,7 @@ def _check_list(nl, D, d32, cutoff, margin, n):
             i, j = np.argwhere(miss)[0]
             return ("exactly-atoms-within-cutoff" if name == "brute-force" else "agrees-with-compute_distances",
                     f"{int(miss.sum()) // 2} of {int(must.sum()) // 2} pairs within the cutoff ({name}) are missing, e.g. ({i},{j}) at d={M[i, j]:.6f}",
-                    int(miss.sum()) // 2, 0)
+                    int(miss.sum()) // 2, 0, (int(i), int(j)))
         if extra.any():
             i, j = np.argwhere(extra)[0]
             return ("exactly-atoms-within-cutoff" if name == "brute-force" else "agrees-with-compute_distances",
@@ -285,7 +291,8 @@ def assign_keys(chks, records):
             continue
         r = min(rs, key=lambda r: r["n"])
         wc = func + ("" if mode == "periodic" else ":" + mode) + POS_SUFFIX[pos] + (":triclinic" if cell == "triclinic" else "") + "".join(described[g])
-        chks[chk_name].fail(clause, wc, r["what"] + f" ({len(rs)} failing evaluations in this class)", r["input"], observed=r["observed"], expected=r["expected"])
+        chks[chk_name].fail(clause, wc, r["what"] + f" ({len(rs)} failing evaluations in this class)", dict(r["input"], witness_class=wc, clause=clause),
+                            observed=r["observed"], expected=r["expected"])
 
 
 # ------------------------------------------------------------------------------------------------
@@ -309,7 +316,7 @@ def _cases(tier, seed):
     if tier == "quick":
         ns, seeds, fr = [1, 2, 7, 40, 150], [seed], 2
     else:
-        ns, seeds, fr = [1, 2, 3, 11, 60, 150, 400], [seed * 1000 + 100 + k for k in range(2)], 2
+        ns, seeds, fr = [1, 2, 3, 11, 60, 150, 400], [seed * 1000 + 100 + k for k in range(4)], 2
     cases = []
     for pos in POSITIONS:
         for s in seeds:
@@ -320,7 +327,9 @@ def _cases(tier, seed):
                     continue  # identical to the brick
                 for dist in DISTS:
                     for n in ns:
-                        if n >= 150 and dist != "uniform" and (tier == "quick" or n == 400) and fam not in ("ortho", "triclinic", "none"):
+                        if n >= 150 and tier == "quick" and (dist != "uniform" or fam not in ("ortho", "triclinic", "hex120", "none")):
+                            continue
+                        if n == 400 and dist != "uniform" and fam not in ("ortho", "triclinic", "none"):
                             continue
                         if n == 400 and pos == "cell":
                             continue
@@ -371,6 +380,11 @@ def replay(payload):
         case["cutoffs"] = [inp["cutoff"]]
     records = []
     eval_case(chks, case, records)
-    assign_keys(chks, records)
+    if inp.get("witness_class"):  # the class was assigned from the whole run; a single case re-uses it
+        for r in records:
+            if r["clause"] == inp.get("clause") and inp["witness_class"].startswith(r["func"]):
+                chks[r["chk"]].fail(r["clause"], inp["witness_class"], r["what"], r["input"], observed=r["observed"], expected=r["expected"])
+    else:
+        assign_keys(chks, records)
     fails = [f for c in chks.values() for f in c.failures]
     return {"reproduced": bool(fails), "failures": fails}
